@@ -130,7 +130,7 @@ static int64_t eval_rval(Node *node, char ***label);
 static bool is_const_expr(Node *node);
 static Node *assign(Token **rest, Token *tok);
 static Node *logor(Token **rest, Token *tok);
-static double eval_double(Node *node);
+static long double eval_double(Node *node);
 static Node *conditional(Token **rest, Token *tok);
 static Node *logand(Token **rest, Token *tok);
 static Node *bitor(Token **rest, Token *tok);
@@ -1463,6 +1463,11 @@ write_gvar_data(Relocation *cur, Initializer *init, Type *ty, char *buf, int off
     return cur;
   }
 
+  if (ty->kind == TY_LDOUBLE) {
+    *(long double *)(buf + offset) = eval_double(init->expr);
+    return cur;
+  }
+
   char **label = NULL;
   uint64_t val = eval2(init->expr, &label);
 
@@ -1835,7 +1840,56 @@ static int64_t eval(Node *node) {
 // is a pointer to a global variable and n is a postiive/negative
 // number. The latter form is accepted only as an initialization
 // expression for a global variable.
+// Evaluate a scalar as a truth value (it may be a floating constant).
+static bool eval_truth(Node *node) {
+  add_type(node);
+  if (is_flonum(node->ty))
+    return eval_double(node) != 0;
+  return eval(node) != 0;
+}
+
+// Division in a constant expression. Dividing by zero is diagnosed;
+// the one overflowing case must not trap in the compiler.
+static int64_t eval_div(Node *node, bool is_mod) {
+  int64_t lhs = eval(node->lhs);
+  int64_t rhs = eval(node->rhs);
+  if (rhs == 0)
+    error_tok(node->rhs->tok, "division by zero in constant expression");
+  if (node->ty->is_unsigned)
+    return is_mod ? (uint64_t)lhs % (uint64_t)rhs : (uint64_t)lhs / (uint64_t)rhs;
+  if (rhs == -1)
+    return is_mod ? 0 : -(uint64_t)lhs;
+  return is_mod ? lhs % rhs : lhs / rhs;
+}
+
+static int64_t eval_raw(Node *node, char ***label);
+
+// The value of an integer constant expression is a value of its type:
+// wrap the 64-bit result to the width and signedness of the node type.
 static int64_t eval2(Node *node, char ***label) {
+  int64_t val = eval_raw(node, label);
+
+  if (!is_integer(node->ty) || node->ty->kind == TY_BOOL)
+    return val;
+
+  switch (node->ty->size) {
+  case 1:
+    if (node->ty->is_unsigned)
+      return (uint8_t)val;
+    return (int8_t)val;
+  case 2:
+    if (node->ty->is_unsigned)
+      return (uint16_t)val;
+    return (int16_t)val;
+  case 4:
+    if (node->ty->is_unsigned)
+      return (uint32_t)val;
+    return (int32_t)val;
+  }
+  return val;
+}
+
+static int64_t eval_raw(Node *node, char ***label) {
   add_type(node);
 
   if (is_flonum(node->ty))
@@ -1849,15 +1903,11 @@ static int64_t eval2(Node *node, char ***label) {
   case ND_MUL:
     return eval(node->lhs) * eval(node->rhs);
   case ND_DIV:
-    if (node->ty->is_unsigned)
-      return (uint64_t)eval(node->lhs) / eval(node->rhs);
-    return eval(node->lhs) / eval(node->rhs);
+    return eval_div(node, false);
   case ND_NEG:
-    return -eval(node->lhs);
+    return -(uint64_t)eval(node->lhs);
   case ND_MOD:
-    if (node->ty->is_unsigned)
-      return (uint64_t)eval(node->lhs) % eval(node->rhs);
-    return eval(node->lhs) % eval(node->rhs);
+    return eval_div(node, true);
   case ND_BITAND:
     return eval(node->lhs) & eval(node->rhs);
   case ND_BITOR:
@@ -1871,40 +1921,50 @@ static int64_t eval2(Node *node, char ***label) {
       return (uint64_t)eval(node->lhs) >> eval(node->rhs);
     return eval(node->lhs) >> eval(node->rhs);
   case ND_EQ:
+    if (is_flonum(node->lhs->ty))
+      return eval_double(node->lhs) == eval_double(node->rhs);
     return eval(node->lhs) == eval(node->rhs);
   case ND_NE:
+    if (is_flonum(node->lhs->ty))
+      return eval_double(node->lhs) != eval_double(node->rhs);
     return eval(node->lhs) != eval(node->rhs);
   case ND_LT:
+    if (is_flonum(node->lhs->ty))
+      return eval_double(node->lhs) < eval_double(node->rhs);
     if (node->lhs->ty->is_unsigned)
       return (uint64_t)eval(node->lhs) < eval(node->rhs);
     return eval(node->lhs) < eval(node->rhs);
   case ND_LE:
+    if (is_flonum(node->lhs->ty))
+      return eval_double(node->lhs) <= eval_double(node->rhs);
     if (node->lhs->ty->is_unsigned)
       return (uint64_t)eval(node->lhs) <= eval(node->rhs);
     return eval(node->lhs) <= eval(node->rhs);
   case ND_COND:
-    return eval(node->cond) ? eval2(node->then, label) : eval2(node->els, label);
+    return eval_truth(node->cond) ? eval2(node->then, label) : eval2(node->els, label);
   case ND_COMMA:
     return eval2(node->rhs, label);
   case ND_NOT:
-    return !eval(node->lhs);
+    return !eval_truth(node->lhs);
   case ND_BITNOT:
     return ~eval(node->lhs);
   case ND_LOGAND:
-    return eval(node->lhs) && eval(node->rhs);
+    return eval_truth(node->lhs) && eval_truth(node->rhs);
   case ND_LOGOR:
-    return eval(node->lhs) || eval(node->rhs);
-  case ND_CAST: {
-    int64_t val = eval2(node->lhs, label);
-    if (is_integer(node->ty)) {
-      switch (node->ty->size) {
-      case 1: return node->ty->is_unsigned ? (uint8_t)val : (int8_t)val;
-      case 2: return node->ty->is_unsigned ? (uint16_t)val : (int16_t)val;
-      case 4: return node->ty->is_unsigned ? (uint32_t)val : (int32_t)val;
-      }
+    return eval_truth(node->lhs) || eval_truth(node->rhs);
+  case ND_CAST:
+    add_type(node->lhs);
+    if (node->ty->kind == TY_BOOL)
+      return eval_truth(node->lhs);
+    if (is_flonum(node->lhs->ty)) {
+      // Floating to integer: truncate toward zero. The wrapper
+      // narrows the result to the width of the target type.
+      long double fval = eval_double(node->lhs);
+      if (node->ty->is_unsigned && node->ty->size == 8)
+        return (uint64_t)fval;
+      return (int64_t)fval;
     }
-    return val;
-  }
+    return eval2(node->lhs, label);
   case ND_ADDR:
     return eval_rval(node->lhs, label);
   case ND_LABEL_VAL:
@@ -1954,6 +2014,7 @@ static bool is_const_expr(Node *node) {
   case ND_SUB:
   case ND_MUL:
   case ND_DIV:
+  case ND_MOD:
   case ND_BITAND:
   case ND_BITOR:
   case ND_BITXOR:
@@ -1989,9 +2050,33 @@ int64_t const_expr(Token **rest, Token *tok) {
   return eval(node);
 }
 
-static double eval_double(Node *node) {
-  add_type(node);
+// Floating constant expressions are evaluated in the type of each
+// node (FLT_EVAL_METHOD is 0): float arithmetic is rounded to float,
+// double arithmetic to double, and long double keeps full precision.
+static long double eval_double2(Node *node);
 
+static long double eval_double(Node *node) {
+  add_type(node);
+  long double val = eval_double2(node);
+  if (node->ty->kind == TY_FLOAT)
+    return (float)val;
+  if (node->ty->kind == TY_DOUBLE)
+    return (double)val;
+  return val;
+}
+
+#define EVAL_FLONUM_BINOP(op)                                 \
+  do {                                                        \
+    long double lhs = eval_double(node->lhs);                 \
+    long double rhs = eval_double(node->rhs);                 \
+    if (node->ty->kind == TY_FLOAT)                           \
+      return (float)lhs op (float)rhs;                        \
+    if (node->ty->kind == TY_DOUBLE)                          \
+      return (double)lhs op (double)rhs;                      \
+    return lhs op rhs;                                        \
+  } while (0)
+
+static long double eval_double2(Node *node) {
   if (is_integer(node->ty)) {
     if (node->ty->is_unsigned)
       return (unsigned long)eval(node);
@@ -2000,22 +2085,25 @@ static double eval_double(Node *node) {
 
   switch (node->kind) {
   case ND_ADD:
-    return eval_double(node->lhs) + eval_double(node->rhs);
+    EVAL_FLONUM_BINOP(+);
   case ND_SUB:
-    return eval_double(node->lhs) - eval_double(node->rhs);
+    EVAL_FLONUM_BINOP(-);
   case ND_MUL:
-    return eval_double(node->lhs) * eval_double(node->rhs);
+    EVAL_FLONUM_BINOP(*);
   case ND_DIV:
-    return eval_double(node->lhs) / eval_double(node->rhs);
+    EVAL_FLONUM_BINOP(/);
   case ND_NEG:
     return -eval_double(node->lhs);
   case ND_COND:
-    return eval_double(node->cond) ? eval_double(node->then) : eval_double(node->els);
+    return eval_truth(node->cond) ? eval_double(node->then) : eval_double(node->els);
   case ND_COMMA:
     return eval_double(node->rhs);
   case ND_CAST:
+    add_type(node->lhs);
     if (is_flonum(node->lhs->ty))
       return eval_double(node->lhs);
+    if (node->lhs->ty->is_unsigned)
+      return (unsigned long)eval(node->lhs);
     return eval(node->lhs);
   case ND_NUM:
     return node->fval;
